@@ -187,6 +187,22 @@ class Ctx:
     def model_check(self, module, cfg=None, **kw):
         return self.tlc(module, cfg, **kw)
 
+    def apalache(self, module, inv, init="Init", length=0, timeout=900):
+        """symbolic check of an (inductive) invariant with Apalache; returns seconds.  Failure = the SPEC lemma fails: Machinery."""
+        d = self._spec_dir("apa_" + module)
+        t = time.time()
+        try:
+            p = subprocess.run(["apalache-mc", "check", "--init=" + init, "--inv=" + inv, "--length=%d" % length, module + ".tla"],
+                               cwd=d, capture_output=True, text=True, timeout=timeout)
+        except subprocess.TimeoutExpired:
+            raise Machinery("Apalache timeout on %s/%s" % (module, inv))
+        if "EXITCODE: OK" not in p.stdout:
+            raise Machinery("Apalache did not discharge %s/%s:\n%s" % (module, inv, (p.stdout + p.stderr)[-3000:]))
+        w = time.time() - t
+        self.cov["model_runs"].append({"module": module, "tool": "apalache", "invariant": inv, "length": length, "wall_s": round(w, 1)})
+        self.log("Apalache %s/%s discharged in %.1fs" % (module, inv, w))
+        return w
+
     # ---------------------------------------------------------------- trace validation (T)
     def validate(self, module, records, shards=None, timeout=1800, cfg=None, heap="3g", dfs=False):
         """Replay implementation records through the trace spec `module`.  Returns list of
